@@ -32,12 +32,16 @@ inline void barrier(int) { gpuemu::barrier(); }
 // __local is only defined with -DGPUEMU_WORKGROUP (fiber executor, see workgroup.hpp)
 #ifdef GPUEMU_WORKGROUP
 // a __local variable declared in a kernel: one instance for the group that is running
+#ifdef GPUEMU_RACE
+#define __local static __attribute__((section("gpuemu_shared")))
+#else
 #define __local static
+#endif
 // OpenCL C 1.1 atomic functions on 32-bit integers in global/local memory (6.11.11)
 #define GPUEMU_CL_ATOMIC2(T, name, expr) \
-  inline T name(volatile T *p, T val) { const T old = *p; *p = (T) (expr); return old; }
+  inline T name(volatile T *p, T val) { return gpuemu::atomicRmw(const_cast<T*>(p), [=](T old) { return (T) (expr); }); }
 #define GPUEMU_CL_ATOMIC1(T, name, expr) \
-  inline T name(volatile T *p) { const T old = *p; *p = (T) (expr); return old; }
+  inline T name(volatile T *p) { return gpuemu::atomicRmw(const_cast<T*>(p), [=](T old) { return (T) (expr); }); }
 GPUEMU_CL_ATOMIC2(int, atomic_add, (unsigned int) old + (unsigned int) val)
 GPUEMU_CL_ATOMIC2(unsigned int, atomic_add, old + val)
 GPUEMU_CL_ATOMIC2(int, atomic_sub, (unsigned int) old - (unsigned int) val)
